@@ -216,6 +216,7 @@ class Exec(Engine):
         for s, c in self.ev(e.test, st):
             if _isR(c): out.append((s, c)); continue
             for s2, val in self.branch(s, self.truth(s, c), 'ifexp@%s' % e.lineno):
+                self.narrow(s2, e.test, val)
                 out.extend(self.ev(e.body if val else e.orelse, s2))
         return out
 
@@ -228,6 +229,7 @@ class Exec(Engine):
             for s2, v in rs:
                 if _isR(v): out.append((s2, v)); continue
                 for s3, val in self.branch(s2, self.truth(s2, v), 'boolop@%s' % e.lineno):
+                    self.narrow(s3, e.values[i], val)
                     if val == is_and: out.extend(go(i + 1, s3))
                     else: out.append((s3, v))
             return out
@@ -268,6 +270,12 @@ class Exec(Engine):
                     outs.append((ok, mk_int(q if isinstance(op, ast.FloorDiv) else r)))
                 return outs
             if isinstance(op, (ast.BitAnd, ast.BitOr, ast.BitXor, ast.LShift, ast.RShift)):
+                az, bz = z3.simplify(a.z), z3.simplify(b.z)
+                if z3.is_int_value(az) and z3.is_int_value(bz):
+                    x, y = az.as_long(), bz.as_long()
+                    r = {ast.BitAnd: lambda: x & y, ast.BitOr: lambda: x | y, ast.BitXor: lambda: x ^ y,
+                         ast.LShift: lambda: x << y, ast.RShift: lambda: x >> y}[type(op)]()
+                    return [(st, mk_int(r))]
                 f = z3.Function('py_' + type(op).__name__.lower(), z3.IntSort(), z3.IntSort(), z3.IntSort())
                 if isinstance(op, ast.BitOr): self.use_axiom('bitor')
                 return [(st, mk_int(f(a.z, b.z)))]
